@@ -3,6 +3,8 @@ import Capella.Model.Xml
 import Capella.Model.XmlParse
 import Capella.Model.XmlSpec
 import Capella.Model.XmlEdit
+import Capella.Model.XmlNsUpdate
+import Capella.Gen.Ns
 namespace Capella.Driver.Xml
 open Lean Capella.Driver Capella.Xml
 
@@ -68,8 +70,60 @@ def kindOf : String → Except String FragKind
   | "semantic" => pure .semantic | "visual" => pure .visual | "other" => pure .other
   | k => throw s!"unknown kind {k}"
 
+def nsErrName : NsErr → String
+  | .unsupportedPlugin => "UnsupportedPluginError" | .unsupportedVersion => "UnsupportedPluginVersionError"
+  | .ambiguous => "RuntimeError" | .valueError => "ValueError" | .viewpointMissing => "CorruptModelError"
+  | .assertion => "AssertionError" | .noMetadata => "RuntimeError" | .keyError => "KeyError"
+  | .childDeclares => "unmodelled:child-declares" | .needsFixup => "unmodelled:needs-fixup"
+
+def docJson (d : Doc) : Json :=
+  let cj (c : Comment) : Json := Json.arr #[jstr c.text, jopt c.tail]
+  Json.mkObj [("pre", Json.arr (d.pre.map cj).toArray), ("root", elemJson d.root),
+    ("post", Json.arr (d.post.map cj).toArray)]
+
+def optElem (j : Json) : Except String (Option Elem) :=
+  match j with
+  | .null => pure none
+  | _ => do pure (some (← elemOf j))
+
 def handle (op : String) (j : Json) : Except String Json := do
   match op with
+  | "xml.updateNs" =>
+    -- `ModelFile.update_namespaces(viewpoints)` with the live plugin table
+    let d ← docOf (← j.getObjVal? "doc")
+    let vps ← pairs (← j.getObjVal? "vps")
+    match updateNs Capella.Gen.Ns.plugins vps d with
+    | .error e => pure (Json.mkObj [("raises", nsErrName e)])
+    | .ok d' =>
+      let n := match newNsmap Capella.Gen.Ns.plugins vps d.root with | .ok n => n | .error _ => []
+      let kind (x : Item) : String :=
+        match ask Capella.Gen.Ns.plugins vps x.2.1 x.2.2 with
+        | .ok .nothing => "nothing" | .ok (.fixed _) => "fixed"
+        | .ok (.lookup ns) => if (lookupNs ns x.1).isSome then "lookup-found" else "lookup-missing"
+        | .error _ => "error"
+      let asks := ((iterS [] d.root).map kind).eraseDups
+      pure (Json.mkObj [("doc", docJson d'), ("nsmap", jpairs (sortKV n)),
+        ("replaced", !(dictEq d.root.nsdecls n)), ("asks", Json.arr (asks.map Json.str).toArray)])
+  | "xml.updateAll" =>
+    -- `MelodyLoader.update_namespaces()`: viewpoints from the .afm root, every semantic fragment
+    let afm ← optElem (← j.getObjVal? "afm")
+    let frags ← (← (← j.getObjVal? "frags").getArr?).toList.mapM fun f => do
+      let k ← kindOf (← (← f.getArrVal? 0).getStr?)
+      let d ← docOf (← f.getArrVal? 1)
+      pure (k, d)
+    match updateAll Capella.Gen.Ns.plugins afm frags with
+    | .error e => pure (Json.mkObj [("raises", nsErrName e)])
+    | .ok r => pure (Json.mkObj [("docs", Json.arr (r.map fun kd => docJson kd.2).toArray)])
+  | "xml.viewpoints" =>
+    let afm ← optElem (← j.getObjVal? "afm")
+    match viewpointsOf afm with
+    | .error e => pure (Json.mkObj [("raises", nsErrName e)])
+    | .ok v => pure (Json.mkObj [("vps", jpairs v)])
+  | "xml.nsPrefix" =>
+    let url ← getStr j "url"
+    match nsPrefixOf Capella.Gen.Ns.plugins url with
+    | .error e => pure (Json.mkObj [("raises", nsErrName e)])
+    | .ok k => pure (Json.mkObj [("key", jstr k)])
   | "xml.escape" =>
     let s ← getStr j "s"
     let c ← j.getObjValAs? String "cls"
